@@ -17,7 +17,8 @@ EXPLANATION = (
     "table of its work loop: the value of a node is pushed to its single undetermined child only on paths where the node is not already explained - a "
     "false conjunction with no false child, a true disjunction with no true child (a true conjunction / false disjunction determines all children); "
     "node keys in the queue are assumed non-zero; W7 ConstraintAD.add: the inference 'the weights sum to one, hence the single head not known false is "
-    "true' scans exactly the heads whose weights were summed (the head being added and the heads already in the group)."
+    "true' scans exactly the heads whose weights were summed (the head being added and the heads already in the group); W8 in propagate the current value of a child literal c is current.get(abs(c), abs(c)), negated "
+    "when c is negative (folded for a positive and a negative literal: the key is the node id, an undetermined child stands for the literal itself)."
 )
 TECHNIQUE = "static analysis: path-wise decision-table extraction of the option/evidence wiring"
 LEVEL_TEXT = EXPLANATION
@@ -327,6 +328,52 @@ def rule_w6(repo, col):
     col.floor("W6.single_child_paths", n, 4)
 
 
+def rule_w8(repo, col):
+    """LogicFormula.propagate: the current value of a child literal - sign handling folded for a positive and a negative literal"""
+    import re
+    from .. import dtable
+    from ..astutil import const_value
+
+    f = repo.func("problog.formula", "LogicFormula.propagate")
+    m = f.module
+    loops = [n for n in ast.walk(f.node) if isinstance(n, ast.For) and norm(n.iter).endswith(".children") and isinstance(n.target, ast.Name)
+             and any(isinstance(c_, ast.Call) and isinstance(c_.func, ast.Attribute) and c_.func.attr == "append" for c_ in ast.walk(n))]
+    if len(loops) != 1:
+        raise AnalysisError("LogicFormula.propagate: loop computing the children's values not found")
+    lp = loops[0]
+    c = lp.target.id
+    paths = dtable.extract_block(lp.body, opaque_loops=True)
+    n = 0
+    for lit in (5, -5):
+        ps = dtable.compatible(paths, [(c, lit)])
+        ps = [p_ for p_ in ps if all(dtable.eval_atom(s_, [(c, lit)], None) is not None for s_, _, _ in p_.conds)]
+        if len(ps) != 1:
+            raise AnalysisError("LogicFormula.propagate: %d paths of the child loop for a %s literal" % (len(ps), "negative" if lit < 0 else "positive"))
+        app = [a for fn, a, _ in ps[0].calls if fn.endswith(".append")]
+        if len(app) != 1:
+            raise AnalysisError("LogicFormula.propagate: child value not appended exactly once")
+        src = app[0][0]
+        e = ast.parse(src, mode="eval").body
+        negated = False
+        if isinstance(e, ast.Call) and dotted(e.func) == "self.negate" and len(e.args) == 1:
+            negated = True
+            e = e.args[0]
+        if not (isinstance(e, ast.Call) and isinstance(e.func, ast.Attribute) and e.func.attr == "get" and len(e.args) == 2):
+            raise AnalysisError("LogicFormula.propagate: child value expression not understood: %s" % src)
+        okk, key = const_value(e.args[0], {c: lit})
+        okd, dflt = const_value(e.args[1], {c: lit})
+        if not okk or not okd:
+            raise AnalysisError("LogicFormula.propagate: key/default of the child value not foldable")
+        n += 1
+        # value of the literal when the node is undetermined: (-1 if negated) * default must be the literal itself; the look-up key is the node id
+        ok = key == abs(lit) and (-dflt if negated else dflt) == lit
+        col.decide("W8", m, lp, ok, "a %s child literal: looked up under its node id, undetermined -> the literal itself" % ("negative" if lit < 0 else "positive"),
+                   "propagate computes the value of the child literal %d as %s (key %s, undetermined default %s%s): the value must be looked up under the node id %d and an undetermined "
+                   "child must stand for the literal itself - a doubly negated default assigns the opposite truth value to the child" % (lit, src, key, "negated " if negated else "", dflt, abs(lit)),
+                   construct="child value: %s literal" % ("negative" if lit < 0 else "positive"), function="LogicFormula.propagate")
+    col.floor("W8.child_literal_cases", n, 2)
+
+
 def rule_w7(repo, col):
     """ConstraintAD.add: 'the weights sum to one, so the single head not known false is true' - the heads scanned must be the heads summed"""
     f = repo.func("problog.constraint", "ConstraintAD.add")
@@ -376,6 +423,7 @@ def rule_w7(repo, col):
 
 def run(repo, col):
     col.rule("W7", "AD constraint propagation: summed heads == scanned heads")
+    col.rule("W8", "propagate: value of a child literal (sign handling)")
     col.rule("W6", "evidence propagation on the formula: unit inference only when the parent is not already explained")
     col.rule("W1", "weight propagation constants")
     col.rule("W2", "propagate_evidence lookup table")
@@ -388,3 +436,4 @@ def run(repo, col):
     rule_w4_w5(repo, col)
     rule_w6(repo, col)
     rule_w7(repo, col)
+    rule_w8(repo, col)
